@@ -17,6 +17,11 @@
                            = (0,0) (1,0) (0,1) (1,1). Every cycle must verify, read and share like the source and give the bytes of
                            the first (fresh) cycle; the map must be empty after every reset (flatcc_builder.h: reset resets the refmap)
                            -> OK srcv=0 cyc=<first failing cycle or 0> dstv=.. val=.. share=.. same=.. mapreset=.. size=..
+           nest:<1|2>      the clone is made INSIDE a nested buffer of the copy (level 1: root.nested8 = clone of the source root;
+                           level 2: root.nested8 = Node{ nested8 = clone of the source root }), same reference map: the innermost
+                           nested root must read and SHARE like the source
+   request:  wseq <level> <op> ...   i<src>,<ref> / f<src> through the BUILDER wrappers flatcc_builder_refmap_insert / _find with an
+                           attached map while <level>+1 buffers are open (0 = top level buffer, 1, 2 = nested); replies as refmap_diff
    request:  raw <mode> <refmap> <dumps> <hex>   like run, the source is the given (hand-made) buffer
    request:  api          direct test of flatcc_builder_set_refmap / get_refmap / refmap_find / refmap_insert -> API ok | API <failures>
      objects are numbered 0.. in order of appearance, later objects refer to earlier ones by number (sharing = DAG):
@@ -436,6 +441,19 @@ static void run_api(void)
     if (flatcc_builder_set_refmap(&B, &m1) != &m2) bad |= 256;
     if (m1.count != 1 || flatcc_builder_refmap_find(&B, &a) != 11 || m2.count != 2) bad |= 512;   /* restoring the parent map keeps it */
     if (flatcc_builder_get_refmap(&B) != &m1) bad |= 1024;
+    {   /* the wrappers go to the attached map at every buffer nesting level: what was inserted is found with its reference */
+        int lvl, c = 3, d = 4;
+        for (lvl = 0; lvl < 3; ++lvl) {
+            if (flatcc_builder_start_buffer(&B, 0, 0, 0)) { bad |= 4096; break; }
+            if (flatcc_builder_refmap_find(&B, &a) != 11) bad |= 8192;                                      /* inserted outside, found inside */
+            if (flatcc_builder_refmap_insert(&B, lvl ? (void *)&d : (void *)&c, 70 + lvl) != 70 + lvl) bad |= 8192;
+            if (flatcc_builder_refmap_find(&B, lvl ? (void *)&d : (void *)&c) != 70 + lvl) bad |= 16384;    /* inserted inside, found inside */
+        }
+        if (flatcc_refmap_find(&m1, &c) != 70 || flatcc_refmap_find(&m1, &d) != 72 || m1.count != 3) bad |= 32768;
+        flatcc_builder_reset(&B);      /* abandons the open buffers, resets the installed map */
+        if (m1.count != 0) bad |= 65536;
+        flatcc_refmap_insert(&m1, &a, 11);
+    }
     if (flatcc_builder_set_refmap(&B, 0) != &m1 || flatcc_builder_get_refmap(&B) != 0 || m1.count != 1) bad |= 2048;
     flatcc_refmap_clear(&m1); flatcc_refmap_clear(&m2); flatcc_builder_clear(&B);
     if (bad) printf("API failed=%u\n", bad); else printf("API ok\n");
@@ -481,6 +499,26 @@ static void run_cycles(ns(Node_table_t) sroot, int use_map, int ek, int rk, size
     free(first); free(vs.p); free(hs.p); free((void *)is.p); free((void *)is.rk);
 }
 
+static void run_wseq(char **tok, int ntok)
+{
+    flatcc_builder_t B; flatcc_refmap_t m; int i, lvl = atoi(tok[1]), first = 1;
+    flatcc_builder_init(&B); flatcc_refmap_init(&m); flatcc_builder_set_refmap(&B, &m);
+    for (i = 0; i <= lvl; ++i) if (flatcc_builder_start_buffer(&B, 0, 0, 0)) { printf("ERR start_buffer %d\n", i); goto done; }
+    for (i = 2; i < ntok; ++i) {
+        char *q; unsigned long long src = strtoull(tok[i] + 1, &q, 10);
+        if (!first) putchar(' ');
+        first = 0;
+        if (tok[i][0] == 'i') {
+            long long ref = strtoll(q + 1, 0, 10);
+            printf("%ld/%lu/%lu", (long)flatcc_builder_refmap_insert(&B, (const void *)(uintptr_t)src, (flatcc_builder_ref_t)ref), (unsigned long)m.count, (unsigned long)m.buckets);
+        } else if (tok[i][0] == 'f') printf("%ld", (long)flatcc_builder_refmap_find(&B, (const void *)(uintptr_t)src));
+        else printf("BAD");
+    }
+    putchar('\n');
+done:
+    flatcc_builder_set_refmap(&B, 0); flatcc_refmap_clear(&m); flatcc_builder_clear(&B);
+}
+
 static void run(char **tok, int ntok)
 {
     flatcc_builder_t B1, B2; flatcc_refmap_t refmap; void *src = 0, *dst = 0; size_t ssz = 0, dsz = 0;
@@ -490,8 +528,10 @@ static void run(char **tok, int ntok)
     ns(Node_table_t) sroot;
     size_t mapcount = 0, nalias = 0; unsigned extra = 0, split = 0; int swap = !strncmp(mode, "swap", 4), nest_eq = 1;
     int raw = !strcmp(tok[0], "raw"), old = !strncmp(mode, "old", 3); void *raw_free = 0;
+    int nest = !strncmp(mode, "nest", 4) ? atoi(mode + 5) : 0; ns(Node_table_t) dcmp;
     if (colon) { char *e; mask = (unsigned)strtoul(colon + 1, &e, 10); if (*e == ':') split = (unsigned)strtoul(e + 1, 0, 10); }
     if (swap) mask &= ~(1u << 22);
+    if (nest) mask = ~0u;
     g_api = 0;
     nobjs = 0; g_err = 0; g_known_max = old ? 3 : 255;
     flatcc_builder_init(&B1);
@@ -517,6 +557,12 @@ have_src:
     if (use_map) flatcc_builder_set_refmap(&B2, &refmap);
     if (!strncmp(mode, "clone", 5)) {
         if (!ns(Node_clone_as_root(&B2, sroot))) rc = -1;
+    } else if (nest) {
+        if (flatbuffers_buffer_start(&B2, 0) || ns(Node_start(&B2))) rc = -2;
+        if (!rc && nest == 2 && ns(Node_nested8_start_as_root(&B2))) rc = -6;
+        if (!rc && ns(Node_nested8_clone_as_root(&B2, sroot))) rc = -7;
+        if (!rc && nest == 2 && ns(Node_nested8_end_as_root(&B2))) rc = -8;
+        if (!rc && !flatbuffers_buffer_end(&B2, ns(Node_end(&B2)))) rc = -3;
     } else if (!strncmp(mode, "oldclone", 8)) {
         if (!CO_Node_clone_as_root(&B2, (CO_Node_table_t)sroot)) rc = -1;
     } else if (old) {
@@ -535,10 +581,13 @@ have_src:
     if (!dst) { printf("OK srcv=0 failed=-4 alias=%lu size=%lu/0\n", (unsigned long)nalias, (unsigned long)ssz); goto done2; }
     dstv = old ? CO_Node_verify_as_root(dst, dsz) : ns(Node_verify_as_root(dst, dsz));
     if (dstv) { printf("OK srcv=0 dstv=%d alias=%lu size=%lu/%lu (%s)\n", dstv, (unsigned long)nalias, (unsigned long)ssz, (unsigned long)dsz, flatcc_verify_error_string(dstv)); goto done2; }
-    d_node(&vs, 0, sroot, mask); d_node(&vd, 0, ns(Node_as_root(dst)), mask);
-    d_node(&hd, &id, ns(Node_as_root(dst)), mask);
+    dcmp = ns(Node_as_root(dst));
+    if (nest) { int l; for (l = 0; l < nest && dcmp; ++l) dcmp = ns(Node_nested8_is_present(dcmp)) ? ns(Node_nested8_as_root(dcmp)) : 0; }
+    if (!dcmp) { printf("OK srcv=0 failed=-9 alias=%lu size=%lu/%lu\n", (unsigned long)nalias, (unsigned long)ssz, (unsigned long)dsz); goto done2; }
+    d_node(&vs, 0, sroot, mask); d_node(&vd, 0, dcmp, mask);
+    d_node(&hd, &id, dcmp, mask);
     {   /* fields outside the mask must be absent from the copy */
-        ns(Node_table_t) droot = ns(Node_as_root(dst));
+        ns(Node_table_t) droot = dcmp;
 #define X(i, name) if (!M(i) && ns(Node_##name##_is_present(droot))) extra |= 1u << i;
         FIELDS(X)
 #undef X
@@ -583,7 +632,7 @@ int main(void)
             if (*p) *p++ = 0;
         }
         alarm(10);   /* a reference map whose probe loop does not end must not hang the check */
-        if (n >= 5 && (!strcmp(tok[0], "run") || !strcmp(tok[0], "raw"))) run(tok, (int)n); else if (n == 1 && !strcmp(tok[0], "api")) run_api(); else printf("BAD\n");
+        if (n >= 5 && (!strcmp(tok[0], "run") || !strcmp(tok[0], "raw"))) run(tok, (int)n); else if (n == 1 && !strcmp(tok[0], "api")) run_api(); else if (n >= 3 && !strcmp(tok[0], "wseq")) run_wseq(tok, (int)n); else printf("BAD\n");
         alarm(0);
         fflush(stdout);
     }
